@@ -789,6 +789,8 @@ NEEDS = {
     "db.transfer_without_data": ["transfer"],
     "db.transfer_without_units": ["transfer"],
     "db.delete_transfers_sheet": ["transfer"],
+    "db.transfer_matrix_says_no_but_row_has_data": ["transfer"],
+    "db.interaction_matrix_says_no_but_row_has_data": ["inter"],
     "db.unknown_population_in_interaction": ["inter"],
     "db.interaction_without_data": ["inter"],
     "db.delete_interactions_sheet": ["inter"],
